@@ -16,7 +16,9 @@ def reply_programs(ctx):
             # every data mode appears: rotate forced modes through the corpus
             modes = [spec.DATA_MODES[(k + j) % len(spec.DATA_MODES)] for j in range(3)]
             # every fourth table stages "known name before new name" in one handlers list, declared before further names
-            spec.gen_reply_table(rng, p, force_modes=modes, stage_merge=(k % 4 == 1), stage_shared=({3: "error", 7: "success"}.get(k % 8, False)))
+            # (and every eighth contract has a single reply handler name: its id is the only known one)
+            spec.gen_reply_table(rng, p, n_names=(1 if k % 8 == 6 else None), force_modes=modes, stage_merge=(k % 4 == 1),
+                                 stage_shared=({3: "error", 7: "success", 5: "both"}.get(k % 8, False)))
             progs.append(p)
             k += 1
         out[f"r{b:02d}"] = progs
@@ -112,7 +114,30 @@ def get(ctx, fam):
         return build_family(ctx, fam, ep_programs(ctx))
     if fam == "replies":
         return build_family(ctx, fam, reply_programs(ctx))
+    if fam == "renamed":
+        return build_family(ctx, fam, renamed_programs(ctx))
     raise KeyError(fam)
+
+
+def renamed_programs(ctx):
+    """Programs whose exec / query messages get another wire name through a forwarded `serde(rename = "..")` (with and
+    without arguments).  Only checks that never predict a wire name run on them (C10: helper -> target entry point)."""
+    out = {}
+    n = ctx.pick(4, 24)
+    for i in range(n):
+        rng = ctx.rng("renamed", i)
+        p = spec.gen_program(rng, f"rn{i:02d}", n_ifaces=rng.choice([1, 2]))
+        k = 0
+        for part in p["parts"]:
+            hs = [h for h in part["handlers"] if h["kind"] in ("exec", "query") and h["safe"]]
+            for j, h in enumerate(hs):
+                if j == 0 and h["args"] and rng.random() < 0.7:
+                    h["args"] = []   # at least some renamed messages without arguments
+                if rng.random() < 0.7 or j == 0:
+                    k += 1
+                    h["sv_attrs"] = [a for a in h.get("sv_attrs", []) if "rename" not in a] + [f'serde(rename = "renamed{k}X")']
+        out.setdefault(f"rn{i % ctx.pick(2, 6):02d}", []).append(p)
+    return out
 
 
 # ---------------------------------------------------------------- C17: forwarded attributes with an effect
